@@ -5,7 +5,16 @@ import (
 	"fmt"
 	"github.com/aml-org/amf-custom-validator/internal/misc"
 	"github.com/aml-org/amf-custom-validator/internal/parser/profile"
+	"strings"
 )
+
+// regexLiteral renders a pattern as a raw Rego string, or as a quoted one when it contains a backtick
+func regexLiteral(pattern string) string {
+	if strings.Contains(pattern, "`") {
+		return regoString(pattern)
+	}
+	return "`" + pattern + "`"
+}
 
 func GeneratePattern(pattern profile.PatternRule, iriExpander *misc.IriExpander) []SimpleRegoResult {
 	path := pattern.Path
@@ -17,9 +26,9 @@ func GeneratePattern(pattern profile.PatternRule, iriExpander *misc.IriExpander)
 	rego = append(rego, fmt.Sprintf("%s = %s_array[_]", checkVariable, checkVariable))
 	// Add the validation
 	if pattern.Negated {
-		rego = append(rego, fmt.Sprintf("regex.match(`%s`,%s)", pattern.Argument, checkVariable))
+		rego = append(rego, fmt.Sprintf("regex.match(%s,%s)", regexLiteral(pattern.Argument), checkVariable))
 	} else {
-		rego = append(rego, fmt.Sprintf("not regex.match(`%s`,%s)", pattern.Argument, checkVariable))
+		rego = append(rego, fmt.Sprintf("not regex.match(%s,%s)", regexLiteral(pattern.Argument), checkVariable))
 	}
 
 	tracePath, err := pattern.Path.Trace(iriExpander)
